@@ -205,6 +205,74 @@ fn cap_programs(n: usize) -> Vec<(String, Vec<String>, bool)> {
     v
 }
 
+/// The caps while a breakpoint is pending: the stack survives into immediate mode there, so
+/// calls typed at the prompt are held to the same limits.
+fn breakpoint_cap_sessions() -> (u64, Vec<Violation>) {
+    let mut out = vec![];
+    let mut calls = 0u64;
+    let l = |s: &str| Ev::Line(s.to_string());
+    for held in [30usize, 31, 32] {
+        for (what, probe) in [("GOSUB", "GOSUB 5000"), ("function call", "X=Q1(1)"), ("GOSUB under IF", "IF 1 THEN GOSUB 5000")] {
+            let mut hist = vec![l("1 DEF Q1(X)=X"), l(&format!("10 N=N+1: IF N<{} THEN GOSUB 10", held + 1)), l("20 STOP"), l("5000 RETURN"), Ev::LineToIdle("RUN".into())];
+            let mut s = Sess::new();
+            for e in &hist {
+                let _ = s.apply(e);
+                calls += 1;
+            }
+            let snap = s.it.verif_snapshot();
+            if snap.stack.len() != held || snap.breakpoint.is_none() {
+                crate::common::machinery(&format!("C16 breakpoint session holds {} frames, expected {}", snap.stack.len(), held));
+            }
+            let e = Ev::LineToIdle(probe.to_string());
+            let r = s.apply(&e);
+            hist.push(e);
+            calls += 1;
+            let after = s.it.verif_snapshot();
+            let refused = matches!(&r, CallResult::Err(k, _) if k.starts_with("OutOfMemory"));
+            let problem = if let Some(w) = invariant(&after) {
+                Some(format!("invariant: {}", w))
+            } else if held == 32 && !refused {
+                Some(format!("with 32 frames held at a breakpoint, {} typed at the prompt gave {:?}", probe, r))
+            } else if held < 32 && r != CallResult::Ok {
+                Some(format!("with {} frames held at a breakpoint, {} typed at the prompt gave {:?}", held, probe, r))
+            } else {
+                None
+            };
+            if let Some(p) = problem {
+                out.push(Violation { signature: format!("at a breakpoint, {}: {}", what, p.chars().filter(|c| !c.is_ascii_digit()).take(80).collect::<String>()), detail: p, case: case_history(&hist, false, false) });
+            }
+        }
+    }
+    // frames left behind by immediate GOSUBs that end in a STOP
+    {
+        let mut hist = vec![l("100 STOP"), l("110 RETURN")];
+        let mut s = Sess::new();
+        for e in &hist {
+            let _ = s.apply(e);
+        }
+        for i in 1..=40usize {
+            let e = Ev::LineToIdle("GOSUB 100".into());
+            let r = s.apply(&e);
+            hist.push(e);
+            calls += 1;
+            let snap = s.it.verif_snapshot();
+            let refused = matches!(&r, CallResult::Err(k, _) if k.starts_with("OutOfMemory"));
+            let problem = if let Some(w) = invariant(&snap) {
+                Some(format!("invariant: {}", w))
+            } else if snap.stack.len() >= 32 && i > 33 && !refused {
+                Some(format!("GOSUB number {} typed at the prompt was accepted with {} frames held", i, snap.stack.len()))
+            } else {
+                None
+            };
+            if let Some(p) = problem {
+                out.push(Violation { signature: format!("immediate GOSUBs ending in STOP: {}", p.chars().filter(|c| !c.is_ascii_digit()).take(80).collect::<String>()), detail: p, case: case_history(&hist, false, false) });
+                break;
+            }
+        }
+    }
+    (calls, out)
+}
+
 /// Accumulation pass: after every run of every loop / subroutine grammar program the open
 /// loops (by variable, in order) and the number of frames must be exactly those of the
 /// reference machine, or fewer - anything more is state that accumulated.
@@ -424,6 +492,13 @@ pub fn run(thorough: bool) -> Report {
         }
     }
 
+    {
+        let (c, v) = breakpoint_cap_sessions();
+        cap_turns += c;
+        for x in v {
+            rep.add(x);
+        }
+    }
     let (acc_programs, acc_turns, acc_viol) = accumulation_pass(thorough);
     cap_turns += acc_turns;
     {
